@@ -31,7 +31,7 @@ class Prop:
             'below 0x10; all 255 wrong checksums and a checksum token matrix; extra unknown / colon-free / non-UTF-8 '
             'fields inserted at every position; tag blocks attached to valid and invalid sentences (sentence parsed '
             'with and without); each compared with the Lean model and with the property; non-trivial = the block '
-            'initialised')
+            'initialised ; TagBlock.create_str next to create')
     assumptions = ['group members and checksum text are ASCII (int(str) also accepts non-ASCII decimal digits and '
                    'Unicode whitespace, which the model treats as outside its domain)']
 
